@@ -460,6 +460,7 @@ struct RingStats {
     nontrivial: u64,
     with_torsion: u64,
     candidates: f64,
+    alphabet: String,
 }
 
 /// All kept pairs with a,b,c in 0..=maxdim over `al`; `f` is called once per kept pair.
@@ -550,7 +551,7 @@ fn sweep_ring<F: RefEuclid>(run: &Run, name: &'static str, al: &[F], maxdim: usi
     if stopped.load(Ordering::Relaxed) {
         run.cap(&format!("wall budget reached inside ring {name} (dims 0..={maxdim})"));
     }
-    RingStats { name, kept: kept.into_inner(), nontrivial: nontrivial.into_inner(), with_torsion: with_torsion.into_inner(), candidates }
+    RingStats { name, kept: kept.into_inner(), nontrivial: nontrivial.into_inner(), with_torsion: with_torsion.into_inner(), candidates, alphabet: show_vec(al) }
 }
 
 fn qq(n: i64, d: i64) -> Q {
@@ -589,32 +590,37 @@ fn main() {
                 stats.push((st, maxdim, ntypes));
             }};
         }
-        // Z-like
-        let zal: Vec<Z> = if thin { vec![z(0), z(1), z(-1), z(2)] } else { [0, 1, -1, 2, 3, -2, 4, 6].iter().map(|&i| z(i)).collect() };
-        ring!("Z", zal, [i64, i128, BigInt]);
-        let qal: Vec<Q> = if thin { vec![qq(0, 1), qq(1, 1), qq(-1, 1), qq(1, 2)] } else { vec![qq(0, 1), qq(1, 1), qq(-1, 1), qq(1, 2), qq(2, 1), qq(2, 3)] };
+        // thin alphabets (0..=3 sweep of the thorough tier): three letters, except Z over i64 (four)
+        let zal: Vec<Z> = [0, 1, -1, 2, 3, -2, 4, 6].iter().map(|&i| z(i)).collect();
+        if thin {
+            ring!("Z", vec![z(0), z(1), z(-1), z(2)], [i64]);
+            ring!("Z", vec![z(0), z(1), z(2)], [i128, BigInt]);
+        } else {
+            ring!("Z", zal, [i64, i128, BigInt]);
+        }
+        let qal: Vec<Q> = if thin { vec![qq(0, 1), qq(1, 1), qq(1, 2)] } else { vec![qq(0, 1), qq(1, 1), qq(-1, 1), qq(1, 2), qq(2, 1), qq(2, 3)] };
         ring!("Q", qal, [Ratio<i64>]);
         ring!("F2", Fp::<2>::all(), [FF2]);
         ring!("F3", Fp::<3>::all(), [FF<3>]);
         let f5: Vec<Fp<5>> = if thin { vec![Fp(0), Fp(1), Fp(2)] } else { Fp::<5>::all() };
         ring!("F5", f5, [FF<5>]);
         let gal: Vec<Quad<-1>> = if thin {
-            vec![Quad::of(0, 0), Quad::of(1, 0), Quad::of(0, 1), Quad::of(1, 1)]
+            vec![Quad::of(0, 0), Quad::of(1, 0), Quad::of(1, 1)]
         } else {
             vec![Quad::of(0, 0), Quad::of(1, 0), Quad::of(0, 1), Quad::of(1, 1), Quad::of(2, 0), Quad::of(1, 2), Quad::of(3, 0)]
         };
         ring!("Z[i]", gal, [GaussInt<i64>]);
         let eal: Vec<Quad<-3>> = if thin {
-            vec![Quad::of(0, 0), Quad::of(1, 0), Quad::of(0, 1), Quad::of(1, 1)]
+            vec![Quad::of(0, 0), Quad::of(1, 0), Quad::of(1, 1)]
         } else {
             vec![Quad::of(0, 0), Quad::of(1, 0), Quad::of(0, 1), Quad::of(1, 1), Quad::of(2, 0), Quad::of(1, 2), Quad::of(3, 0)]
         };
         ring!("Z[w]", eal, [EisenInt<i64>]);
         let pq = |c: &[i64]| UPoly::<Q>::new(c.iter().map(|&i| Q::int(i)).collect());
-        let pal: Vec<UPoly<Q>> = if thin { vec![pq(&[]), pq(&[1]), pq(&[0, 1]), pq(&[1, 1])] } else { vec![pq(&[]), pq(&[1]), pq(&[0, 1]), pq(&[1, 1]), pq(&[0, 0, 1]), pq(&[0, 2])] };
+        let pal: Vec<UPoly<Q>> = if thin { vec![pq(&[]), pq(&[1]), pq(&[0, 1])] } else { vec![pq(&[]), pq(&[1]), pq(&[0, 1]), pq(&[1, 1]), pq(&[0, 0, 1]), pq(&[0, 2])] };
         ring!("Q[x]", pal, [Poly<'x', Ratio<i64>>]);
         let p3 = |c: &[i64]| UPoly::<Fp<3>>::new(c.iter().map(|&i| Fp::<3>::new(i)).collect());
-        let p3al: Vec<UPoly<Fp<3>>> = if thin { vec![p3(&[]), p3(&[1]), p3(&[0, 1]), p3(&[1, 1])] } else { vec![p3(&[]), p3(&[1]), p3(&[0, 1]), p3(&[1, 1]), p3(&[0, 0, 1]), p3(&[0, 2])] };
+        let p3al: Vec<UPoly<Fp<3>>> = if thin { vec![p3(&[]), p3(&[1]), p3(&[0, 1])] } else { vec![p3(&[]), p3(&[1]), p3(&[0, 1]), p3(&[1, 1]), p3(&[0, 0, 1]), p3(&[0, 2])] };
         ring!("F3[x]", p3al, [Poly<'x', FF<3>>]);
     };
     sweep_all(2, false);
@@ -632,11 +638,16 @@ fn main() {
 
     let per_ring: Vec<Value> = stats
         .iter()
-        .map(|(s, d, nt)| json!({"ring": s.name, "dims": format!("0..={d}"), "scalar_types": nt, "candidate_pairs": s.candidates,
+        .map(|(s, d, nt)| json!({"ring": s.name, "dims": format!("0..={d}"), "scalar_types": nt, "alphabet": s.alphabet, "candidate_pairs": s.candidates,
                                   "kept_pairs": s.kept, "kept_with_nonzero_differential": s.nontrivial, "kept_with_torsion_somewhere": s.with_torsion}))
         .collect();
-    let distinct: u64 = stats.iter().filter(|(_, d, _)| *d == 2).map(|(s, _, _)| s.nontrivial).sum::<u64>()
-        + stats.iter().filter(|(_, d, _)| *d == 3).map(|(s, _, _)| s.nontrivial).sum::<u64>();
+    // the same ring may be swept twice over nested alphabets (Z, 0..=3): count the larger one only
+    let mut best: std::collections::BTreeMap<(&str, usize), u64> = Default::default();
+    for (s, d, _) in &stats {
+        let e = best.entry((s.name, *d)).or_insert(0);
+        *e = (*e).max(s.nontrivial);
+    }
+    let distinct: u64 = best.values().sum();
     let inputs_x_types: u64 = stats.iter().map(|(s, _, nt)| s.kept * *nt as u64).sum();
     let coverage = json!({
         "evaluations": EVALS.load(Ordering::Relaxed),
